@@ -175,6 +175,18 @@ func optsIdentical(req *api.Pin, ex *api.Pin) bool {
 	return cmpx.Canon(a) == cmpx.Canon(b) && len(req.UserAllocations) == 0
 }
 
+// sameOptions: every pin option equal (user allocations and origins as sets).
+func sameOptions(a, b *api.Pin) bool {
+	x, y := cmpx.NormOpts(a.PinOptions, cmpx.Norm{}), cmpx.NormOpts(b.PinOptions, cmpx.Norm{})
+	x.PinUpdate, y.PinUpdate = cid.Undef, cid.Undef
+	for _, o := range []*api.PinOptions{&x, &y} {
+		o := o
+		sort.Slice(o.Origins, func(i, j int) bool { return o.Origins[i].String() < o.Origins[j].String() })
+		sort.Slice(o.UserAllocations, func(i, j int) bool { return o.UserAllocations[i] < o.UserAllocations[j] })
+	}
+	return cmpx.Canon(x) == cmpx.Canon(y)
+}
+
 // expectPin computes what a pin request must do (statement of C04).
 func (m *model) expectPin(req *api.Pin, now time.Time) expect {
 	if m.follower {
@@ -515,6 +527,15 @@ func TestPinset(t *testing.T) {
 					// deliberately ignored when options are compared: a re-pin
 					// without it may keep the recorded one (oracle decision)
 					want.PinUpdate = st.PinUpdate
+				}
+				if ex := m.pins[st.Cid.String()]; ex != nil && want.Type != api.MetaType && want.Reference != nil && ex.Reference != nil &&
+					!want.Reference.Equals(*ex.Reference) && sameOptions(want, ex) {
+					// the reference of a cluster-DAG or shard entry is not a pin
+					// option: a re-pin with identical options re-submits the
+					// recorded entry, reference included (oracle decision, DESIGN 9.3)
+					r := *ex.Reference
+					want.Reference = &r
+					classes["repin-identical-other-reference"] = true
 				}
 				if a, b := cmpx.PinStr(want, norm), cmpx.PinStr(st, norm); a != b {
 					t.Fatalf("step %d %s: stored entry differs from the request: %s\nscript: %s", step, desc, cmpx.Diff(a, b), strings.Join(script, " ; "))
